@@ -531,8 +531,9 @@ class DisplayK:
         force = req.get("force_upload")
         if force is None:
             force = bool(self.cfg.get("force_upload", False))
+        method = {"f": "file", "d": "direct"}.get(req.get("upload_method"), req.get("upload_method")) or self.method   # per call, else configured
         self.steps.append(f"R;{self.at};{name};{tg};{f[0]};{f[1]};{f[2]};{size};{1 if force else 0};{1 if display else 0};"
-                          f"{self.method};{1 if self.ssh else 0};{1 if is_file else 0};{1 if available else 0}")
+                          f"{method};{1 if self.ssh else 0};{1 if is_file else 0};{1 if available else 0}")
         self.real.append(dict(req=req, term=name, tx=list(self.tx), cmd_bytes=cmd_bytes, printed=printed, ret=ret, raised=raised))
 
     # -- the comparison ---------------------------------------------------------------------------
@@ -648,7 +649,13 @@ def check_case(ctx: Ctx, c: dict):
             terms.append(dict(t=t, cmd=cmd, disp=disp, spec=SpecTerminal(f"T{i}", layers=cfg.get("num_tmux_layers", 0)), cpos=0, dpos=0))
         pool = _make_pool(td, c["pool"])
         method_cfg = cfg.get("upload_method", "auto")
-        resolved_file = (method_cfg in ("file", "f")) or (method_cfg == "auto" and not c.get("ssh"))
+
+        def _rf(req=None):
+            """does the upload method in force for this request (per-call argument, else the configured one) resolve to a file medium?"""
+            m = (req or {}).get("upload_method") or method_cfg
+            return (m in ("file", "f")) or (m == "auto" and not c.get("ssh"))
+        cur_req = [None]
+        tx_rf = {}
         library_files = set()
         instances = {}     # name -> (ImageInstance, pool index at creation)
         inst_version = {}  # name -> version of the (in-memory) pool image when the instance was made
@@ -656,13 +663,17 @@ def check_case(ctx: Ctx, c: dict):
 
         def on_transmit(spec, keys, payload):
             medium = keys.get("t", "d")
+            if keys.get("i") is not None:
+                # the size limit that applies to an arrival is the one of the method in force for the request that SENT it
+                tx_rf[(spec.name, str(keys["i"]))] = _rf(cur_req[0])
             kd.note_transmit(spec.name, keys)
             ctx.count("medium:" + medium)
             if medium in ("f", "t"):
                 path = payload.decode()
-                if not resolved_file:
+                if not _rf(cur_req[0]):
                     ctx.violation("file medium used although the resolved upload method is inline", c,
-                                  {"keys": keys, "path": path, "ssh": bool(c.get("ssh")), "method": method_cfg}, key="file-medium-when-inline")
+                                  {"keys": keys, "path": path, "ssh": bool(c.get("ssh")), "method": (cur_req[0] or {}).get("upload_method") or method_cfg},
+                                  key="file-medium-when-inline")
                 user_files = {e["path"] for e in pool if e["path"]}
                 if medium == "t" and (path in user_files or not os.path.basename(path).startswith("tty-graphics-protocol-")):
                     ctx.violation("delete-after-reading medium announced for a file the library did not create", c,
@@ -689,7 +700,8 @@ def check_case(ctx: Ctx, c: dict):
                 if expect is None:
                     continue
                 token, erows, ecols = expect["token"], expect["rows"], expect["cols"]
-                token = _downscale_aware(ctx, c, req, token, expect["size"], expect["mode"], cfg, T["spec"], iid, expect["entry"], expect["is_file"])
+                token = _downscale_aware(ctx, c, req, token, expect["size"], expect["mode"], cfg, T["spec"], iid, expect["entry"],
+                                         tx_rf.get((T["spec"].name, str(iid)), expect["is_file"]))
                 if ev_cmd_last > first_disp:
                     ctx.violation("a transmit command was written after the placeholder was printed", c, req, key="print-before-transmit")
                 r = d.ask(f"printok {thr[0]} {thr[1]} {thr[2]} {iid} {token} {rows} {cols} {clock.micros()} {T['spec'].wire_log()}")
@@ -711,6 +723,7 @@ def check_case(ctx: Ctx, c: dict):
             ti = req.get("t", 0) % nterm
             T = terms[ti]["t"]
             acc["bytes"], acc["printed"] = 0, []
+            cur_req[0] = req
             kr = None                         # the model request this library call corresponds to (set just before the call)
             kd.begin()
             kw = {}
@@ -761,7 +774,7 @@ def check_case(ctx: Ctx, c: dict):
                     token, size, mode = _expected_token(e)
                     kr = dict(entry=e, display=True)
                     ph = T.upload_and_display(arg, **kw)
-                    sync(ti, req, dict(token=token, size=size, mode=mode, entry=e, is_file=resolved_file,
+                    sync(ti, req, dict(token=token, size=size, mode=mode, entry=e, is_file=_rf(req),
                                        rows=ph.end_row - ph.start_row, cols=ph.end_col - ph.start_col))
                     kd.request(ti, req, **kr, ret=ph.image_id, cmd_bytes=acc["bytes"], printed=acc["printed"], raised=False)
                 elif op == "upload":
@@ -785,7 +798,7 @@ def check_case(ctx: Ctx, c: dict):
                     T.upload(inst)
                     sync(ti, dict(req, phase="upload"))
                     ph = T.display_only(inst)
-                    sync(ti, req, dict(token=token, size=size, mode=mode, entry=pool[pi], is_file=resolved_file, rows=inst.rows, cols=inst.cols))
+                    sync(ti, req, dict(token=token, size=size, mode=mode, entry=pool[pi], is_file=_rf(req), rows=inst.rows, cols=inst.cols))
                     kd.request(ti, req, **kr, ret=ph.image_id, cmd_bytes=acc["bytes"], printed=acc["printed"], raised=False)
                 elif op == "redisplay_instance":
                     # upload_and_display of an ImageInstance obtained EARLIER (get_image_instance / upload / assign_id);
@@ -798,7 +811,7 @@ def check_case(ctx: Ctx, c: dict):
                         inst.image = pool[pi]["image"]
                     kr = _inst_request(inst, display=True)
                     ph = T.upload_and_display(inst, **{k: v for k, v in kw.items() if k in ("force_upload",)})
-                    sync(ti, req, dict(token=token, size=size, mode=mode, entry=pool[pi], is_file=resolved_file, rows=inst.rows, cols=inst.cols))
+                    sync(ti, req, dict(token=token, size=size, mode=mode, entry=pool[pi], is_file=_rf(req), rows=inst.rows, cols=inst.cols))
                     kd.request(ti, req, **kr, ret=ph.image_id, cmd_bytes=acc["bytes"], printed=acc["printed"], raised=False)
                 elif op == "redisplay_id":       # the CLI's `display <id>`: get_image_instance + upload_and_display
                     ent = instances.get(req["inst"])
@@ -824,7 +837,7 @@ def check_case(ctx: Ctx, c: dict):
                     kr = _inst_request(inst, display=True)
                     ph = T.upload_and_display(inst)
                     token, size, mode = bound[1]
-                    sync(ti, req, dict(token=token, size=size, mode=mode, entry=pool[bound[0]], is_file=resolved_file, rows=inst.rows, cols=inst.cols))
+                    sync(ti, req, dict(token=token, size=size, mode=mode, entry=pool[bound[0]], is_file=_rf(req), rows=inst.rows, cols=inst.cols))
                     kd.request(ti, req, **kr, ret=ph.image_id, cmd_bytes=acc["bytes"], printed=acc["printed"], raised=False)
                 else:
                     raise ValueError(op)
@@ -1067,6 +1080,8 @@ def cases(ctx: Ctx):
                 q = dict(op="upload_and_display", t=t, img=rng.randrange(len(pool)), **geom)
                 if rng.random() < 0.1:
                     q["force_upload"] = True
+                if rng.random() < 0.15:
+                    q["upload_method"] = rng.choice(["file", "direct", "auto", "f", "d"])     # per call, whatever is configured
                 if rng.random() < 0.12:
                     # explicit IDs from the byte-class corners of the ID layout
                     b = lambda: rng.choice([0, 0, 1, 5, 127, 255])
@@ -1079,7 +1094,8 @@ def cases(ctx: Ctx):
                 names.append(nm)
             elif r < 0.6:
                 nm = f"i{j}"
-                reqs.append(dict(op="upload", t=t, img=rng.randrange(len(pool)), name=nm, **geom))
+                reqs.append(dict(op="upload", t=t, img=rng.randrange(len(pool)), name=nm, **geom,
+                                 **({"upload_method": rng.choice(["file", "direct", "auto"])} if rng.random() < 0.15 else {})))
                 names.append(nm)
                 reqs.append(dict(op="display_instance", t=t, inst=nm))
             elif r < 0.68:
